@@ -239,6 +239,21 @@ def run_case(case):
                 model.inverse(torch.randn(B, *me["shape"]), zoo.sample_context(me, B, seed + 3))
         except Exception:
             pass
+    if kind == "transform" and seed % 3 == 0 and mode == "eval" and not case.get("cold") and \
+            not any(getattr(m_, "using_cache", False) for m_ in model.modules()):
+        # the model's FIRST calls (both directions) happen under torch.inference_mode() - a validation pass before fine-tuning:
+        # whatever an object memoises on first use (index tensors, constants) is then an inference tensor, and every later
+        # differentiable call that needs it fails ("Inference tensors cannot be saved for backward").  Weight caching (whose memo is
+        # refilled by train()) and never-initialised ActNorm are left out: both keep what their first call computed by design.
+        try:
+            with torch.inference_mode():
+                xi_ = zoo.sample_inputs(me, B, seed + 77, structured=False)
+                ci_ = zoo.sample_context(me, B, seed + 78)
+                yi_ = model(xi_, ci_)[0]
+                model.inverse(yi_, ci_)
+            r.count("inference_mode_first_calls")
+        except Exception:
+            r.count("inference_mode_first_calls_raised")
     params = [(n, p) for n, p in model.named_parameters() if p.requires_grad]
     for direction in dirs:
         for attempt in range(3):
